@@ -28,11 +28,14 @@ pub trait MapValidVec<T: IsNone>: Vec1View<T> {
             return Box::new(std::iter::repeat_n(value, len));
         }
         match n {
+            // the first n elements have no lagged operand: they are the fill value itself
             n if n > 0 => Box::new(
                 std::iter::repeat_n(value, n_abs)
-                    .chain(self.titer().take(len - n_abs))
-                    .zip(self.titer())
-                    .map(|(a, b)| b - a)
+                    .chain(
+                        self.titer()
+                            .zip(self.titer().skip(n_abs))
+                            .map(|(a, b)| b - a),
+                    )
                     .to_trust(len),
             ),
             n if n < 0 => Box::new(
@@ -43,7 +46,8 @@ pub trait MapValidVec<T: IsNone>: Vec1View<T> {
                     .chain(std::iter::repeat_n(value, n_abs))
                     .to_trust(len),
             ),
-            _ => Box::new(std::iter::repeat_n(T::zero(), len).to_trust(len)),
+            // x[i] - x[i]: zero for valid elements, null for null elements
+            _ => Box::new(self.titer().map(|v| v.clone() - v).to_trust(len)),
         }
     }
 
@@ -95,7 +99,18 @@ pub trait MapValidVec<T: IsNone>: Vec1View<T> {
                     .chain(std::iter::repeat_n(f64::NAN, n_abs))
                     .to_trust(len),
             ),
-            _ => Box::new(std::iter::repeat_n(0., len).to_trust(len)),
+            // x[i] / x[i] - 1: zero unless the element is null or a zero base
+            _ => Box::new(
+                self.titer()
+                    .map(|v| {
+                        if v.not_none() && (v.cast() != 0.) {
+                            0.
+                        } else {
+                            f64::NAN
+                        }
+                    })
+                    .to_trust(len),
+            ),
         }
     }
 
